@@ -1089,6 +1089,31 @@ func c16URLOracle(r *Rng, tier string, rep *Report) {
 	}
 }
 
+// refPctDecode: %XY with two hex digits is one byte, everything else (also '+') is kept.
+func refPctDecode(b []byte) []byte {
+	hexv := func(c byte) int {
+		switch {
+		case c >= '0' && c <= '9':
+			return int(c - '0')
+		case c >= 'a' && c <= 'f':
+			return int(c-'a') + 10
+		case c >= 'A' && c <= 'F':
+			return int(c-'A') + 10
+		}
+		return -1
+	}
+	var out []byte
+	for i := 0; i < len(b); i++ {
+		if b[i] == '%' && i+2 < len(b) && hexv(b[i+1]) >= 0 && hexv(b[i+2]) >= 0 {
+			out = append(out, byte(hexv(b[i+1])<<4|hexv(b[i+2])))
+			i += 2
+		} else {
+			out = append(out, b[i])
+		}
+	}
+	return out
+}
+
 func neturlUnescape(s string) (string, error) { return url.QueryUnescape(s) }
 
 func c16DataURIOracle(r *Rng, tier string, rep *Report) {
@@ -1108,7 +1133,9 @@ func c16DataURIOracle(r *Rng, tier string, rep *Report) {
 			rep.Violate("datauri-"+kind+":"+hx(u), fmt.Sprintf("DataURI(%q) = %q, %q, %v; want %q, %q", u, mt, data, err, wantMt, wantData), map[string]interface{}{"input": hx(u), "kind": kind})
 		}
 	}
-	mediatypes := []string{"", "text/plain", "image/svg+xml", "text/html;charset=utf-8", "a/b;x=y;z=w", "application/octet-stream", "text/plain;charset=US-ASCII;page=21", "x/base64;a=b"}
+	mediatypes := []string{"", "text/plain", "image/svg+xml", "text/html;charset=utf-8", "a/b;x=y;z=w", "application/octet-stream", "text/plain;charset=US-ASCII;page=21", "x/base64;a=b",
+		// parameter names and values that read base64 are not the ";base64" marker (fixed in /repo b8822ef)
+		"x/base64;a=base64", "text/plain;charset=base64;base64=base64", "x/y;base64=1;q=base64"}
 	for i := 0; i < tierN(tier, 20000, 600000); i++ {
 		d := genURLBytes(r, r.Intn(14))
 		if i < 512 {
@@ -1127,8 +1154,24 @@ func c16DataURIOracle(r *Rng, tier string, rep *Report) {
 		expect("base64", []byte("data:"+m+";base64,"+e), wantMt, d)
 		// percent-encoding with the URL table and with net/url
 		expect("percent", append([]byte("data:"+m+","), parse.EncodeURL(append([]byte{}, d...), parse.URLEncodingTable)...), wantMt, d)
-		expect("queryescape", []byte("data:"+m+","+url.QueryEscape(string(d))), wantMt, d)
-		// percent-encoding that leaves '+' alone (RFC 3986 allows it; the library's own DataURIEncodingTable does so)
+		expect("pathescape", []byte("data:"+m+","+url.PathEscape(string(d))), wantMt, d)
+		// ... and with any table that marks '%' (and is one EncodeURL terminates on)
+		if i%4 == 0 {
+			var t [256]bool
+			for {
+				t = [256]bool{}
+				for _, c := range genStableTable(r) {
+					t[byte(c)] = true
+				}
+				t['%'] = true
+				if encodeStable(&t) {
+					break
+				}
+			}
+			expect("percent-custom", append([]byte("data:"+m+","), parse.EncodeURL(append([]byte{}, d...), t)...), wantMt, d)
+		}
+		// percent-encoding that leaves '+' alone (RFC 3986 allows it; the library's own DataURIEncodingTable does so);
+		// a '+' that comes back as a space is the defect fixed in /repo 52357eb
 		pe := append([]byte("data:"+m+","), parse.EncodeURL(append([]byte{}, d...), parse.DataURIEncodingTable)...)
 		if mt, data, err, ok := run(pe); ok && (err != nil || !bytes.Equal(mt, wantMt) || !bytes.Equal(data, d)) {
 			if err == nil && bytes.Equal(mt, wantMt) && bytes.Equal(data, bytes.ReplaceAll(d, []byte("+"), []byte(" "))) {
@@ -1139,7 +1182,7 @@ func c16DataURIOracle(r *Rng, tier string, rep *Report) {
 		}
 		rep.Eval("rt:"+m+":"+hx(d), len(d) > 0, "roundtrip")
 	}
-	// a parameter whose VALUE is the word base64 is not the ";base64" marker
+	// a parameter whose VALUE is the word base64 is not the ";base64" marker (the defect fixed in /repo b8822ef)
 	for _, u := range []string{"data:x/y;a=base64,%07", "data:x/y;a=base64;base64,Bw=="} {
 		mt, data, err, ok := run([]byte(u))
 		if ok && (err != nil || string(mt) != "x/y;a=base64" || string(data) != "\a") {
@@ -1174,7 +1217,7 @@ func c16DataURIOracle(r *Rng, tier string, rep *Report) {
 			} else {
 				// the payload is one of the two decodings of what follows the first comma
 				raw := u[5+bytes.IndexByte(u[5:], ',')+1:]
-				d1 := parse.DecodeURL(append([]byte{}, raw...))
+				d1 := refPctDecode(raw)
 				d2, e2 := base64.StdEncoding.DecodeString(string(raw))
 				if !bytes.Equal(data, d1) && !(e2 == nil && bytes.Equal(data, d2)) {
 					rep.Violate("datauri-payload:"+hx(u), fmt.Sprintf("DataURI(%q) payload %q is neither decoding of %q", u, data, raw), map[string]interface{}{"input": hx(u)})
